@@ -15,6 +15,8 @@ import FluteModel.Sched
     complete                                                                                          -> ok
     read <t> (<toi>:<tick>)*       -> [+toi|-toi ]* (pkt <prio> <toi> <idx> <B> | fdt <id> <idx> [L <tois>] | none)
     nb_objects | is_added <toi> | nb_transfers <toi>
+    window ...    engine-only scenario: interleave window of a multi-block FEC object -> ok
+    pace ...      engine-only scenario: pacing of a FEC (repair packets) / content-encoded object -> ok
     probe ...     engine-only scenario with a fault-injecting STREAM source (the model has buffer sources only) -> ok
 -/
 namespace Flute.Drv.Sched
@@ -117,6 +119,8 @@ def step (d : D) (args : List String) : D × String :=
     match nats? ns with
     | some t => ({ d with tbl := t }, "ok")
     | none => (d, "bad-op")
+  | "window" :: _ => (d, "ok")  -- engine-only scenario (interleave window of a FEC object), see probe.rs
+  | "pace" :: _ => (d, "ok")    -- engine-only scenario (paced FEC / content-encoded object), see probe.rs
   | "probe" :: _ => (d, "ok")   -- engine-only scenario (failing stream source): nothing to model, see probe.rs
   | "new" :: m :: ck :: rest =>
     match nats? rest with
